@@ -24,6 +24,8 @@ type c14send struct {
 	// failWrite: the connection refuses the application's write for this send - a failed re-announcement of
 	// tmpl, which must stay known and keep being refreshed
 	failWrite bool
+	// also: a second template record in the same template set (both must be refreshed afterwards)
+	also *expTmpl
 }
 
 // c14check verifies that every write is exactly one well-formed message of a known shape.
@@ -48,6 +50,8 @@ func c14checkLog(conn *vnet.FakeConn, ts []*expTmpl) {
 			if pm.Header.Domain != c14domain {
 				vsched.Fail("domain-on-wire", "write #%d (set id %d, thread %d) carries observation domain %#x, the exporting process was configured with %#x", i, pm.SetID, w.Thread, pm.Header.Domain, uint32(c14domain))
 			}
+			// (the export time is not compared with the second of the write: the clock may tick between the
+			// stamp and the write inside one SendSet, and the statement does not fix the instant within the call)
 			if pm.Header.Seq != records {
 				vsched.Fail("sequence-on-wire", "write #%d (set id %d, thread %d) carries sequence number %d, but %d data records have been transmitted up to and including it", i, pm.SetID, w.Thread, pm.Header.Seq, records)
 			}
@@ -58,13 +62,17 @@ func c14checkLog(conn *vnet.FakeConn, ts []*expTmpl) {
 			continue
 		}
 		if p.SetID == 2 {
-			tt, rest, _, err := refcodec.ParseTemplateBody(p.Body)
-			if err != nil || len(rest) != 0 {
-				vsched.Fail("malformed-write", "write #%d: template body does not parse: %v", i, err)
-				continue
-			}
-			if t, ok := byID[tt.ID]; !ok || fmt.Sprint(t.ref.Fields) != fmt.Sprint(tt.Fields) {
-				vsched.Fail("corrupted-message", "write #%d: template %d on the wire does not match any template handed to SendSet: %v", i, tt.ID, tt.Fields)
+			// one or more template records
+			for body := p.Body; len(body) > 0; {
+				tt, rest, _, err := refcodec.ParseTemplateBody(body)
+				if err != nil {
+					vsched.Fail("malformed-write", "write #%d: template body does not parse: %v", i, err)
+					break
+				}
+				if t, ok := byID[tt.ID]; !ok || fmt.Sprint(t.ref.Fields) != fmt.Sprint(tt.Fields) {
+					vsched.Fail("corrupted-message", "write #%d: template %d on the wire does not match any template handed to SendSet: %v", i, tt.ID, tt.Fields)
+				}
+				body = rest
 			}
 			continue
 		}
@@ -132,6 +140,17 @@ func c14UDP(name string, advances int, closers int, sends []c14send, ts []*expTm
 					if s.failWrite {
 						conn.FailWritesOf, conn.FailWrites = vsched.CurID(), 1
 					}
+					if s.also != nil {
+						var more []entities.InfoElementWithValue
+						for _, ie := range s.also.ies {
+							e, err := entities.DecodeAndCreateInfoElementWithValue(ie, nil)
+							if err != nil {
+								panic(err)
+							}
+							more = append(more, e)
+						}
+						ts.AddRecord(more, s.also.ref.ID)
+					}
 					set = ts
 				} else {
 					set, _ = dataSet(s.tmpl, s.n, 5, 0)
@@ -139,6 +158,9 @@ func c14UDP(name string, advances int, closers int, sends []c14send, ts []*expTm
 				n, err := ep.SendSet(set)
 				if err == nil && s.template {
 					tmplDone = append(tmplDone, done{s.tmpl.ref.ID, vsched.StepNo()})
+					if s.also != nil {
+						tmplDone = append(tmplDone, done{s.also.ref.ID, vsched.StepNo()})
+					}
 				}
 				if s.failWrite && err == nil {
 					vsched.Fail("silent-drop", "the connection refused the write, yet SendSet reported success")
@@ -180,8 +202,13 @@ func c14UDP(name string, advances int, closers int, sends []c14send, ts []*expTm
 				for _, w := range conn.Writes {
 					if w.Step > lastAdv && w.Thread != app.ID {
 						if p, err := refcodec.ParseMsg(w.Data); err == nil && p.SetID == 2 {
-							if tt, _, _, err := refcodec.ParseTemplateBody(p.Body); err == nil {
+							for body := p.Body; len(body) > 0; {
+								tt, rest, _, err := refcodec.ParseTemplateBody(body)
+								if err != nil {
+									break
+								}
 								got[tt.ID] = true
+								body = rest
 							}
 						}
 					}
@@ -391,8 +418,8 @@ func c14JSON(name string, ts []*expTmpl) *vsched.Scenario {
 
 func c14E2(tier string) []*e2Scenario {
 	ts := c08Tmpls()
-	sends := []c14send{{ts[0], true, 0, false}, {ts[0], false, 2, false}, {ts[1], true, 0, false}, {ts[1], false, 1, false}}
-	short2 := []c14send{{ts[0], true, 0, false}, {ts[0], false, 1, false}}
+	sends := []c14send{{tmpl: ts[0], template: true, n: 0, failWrite: false}, {tmpl: ts[0], template: false, n: 2, failWrite: false}, {tmpl: ts[1], template: true, n: 0, failWrite: false}, {tmpl: ts[1], template: false, n: 1, failWrite: false}}
+	short2 := []c14send{{tmpl: ts[0], template: true, n: 0, failWrite: false}, {tmpl: ts[0], template: false, n: 1, failWrite: false}}
 	b := 2
 	if tier == "thorough" {
 		b = 3
@@ -400,7 +427,8 @@ func c14E2(tier string) []*e2Scenario {
 	return []*e2Scenario{
 		{Name: "udp-1-refresh-vs-app", Sc: c14UDP("udp-1-refresh-vs-app", 1, 0, sends, ts), Bound: b},
 		{Name: "udp-1b-two-refreshes", Sc: c14UDP("udp-1b-two-refreshes", 2, 0, sends[:3], ts), Bound: b},
-		{Name: "udp-1c-failed-reannouncement", Sc: c14UDP("udp-1c-failed-reannouncement", 1, 0, []c14send{{ts[0], true, 0, false}, {ts[0], true, 0, true}, {ts[0], false, 1, false}}, ts), Bound: b},
+		{Name: "udp-1c-failed-reannouncement", Sc: c14UDP("udp-1c-failed-reannouncement", 1, 0, []c14send{{tmpl: ts[0], template: true, n: 0, failWrite: false}, {tmpl: ts[0], template: true, n: 0, failWrite: true}, {tmpl: ts[0], template: false, n: 1, failWrite: false}}, ts), Bound: b},
+		{Name: "udp-1d-two-templates-in-one-set", Sc: c14UDP("udp-1d-two-templates-in-one-set", 1, 0, []c14send{{tmpl: ts[0], template: true, also: ts[1]}, {tmpl: ts[1], n: 1}}, ts), Bound: b},
 		{Name: "udp-2-concurrent-close", Sc: c14UDP("udp-2-concurrent-close", 1, 2, short2, ts), Bound: b},
 		{Name: "tcp-1-peer-close", Sc: c14TCP("tcp-1-peer-close", 0, sends[:3], ts), Bound: b},
 		{Name: "tcp-1b-peer-close-after-quiet-checks", Sc: c14TCP("tcp-1b-peer-close-after-quiet-checks", 0, sends[:2], ts, 2), Bound: b},
